@@ -91,6 +91,17 @@ static void do_new(Toks& tk) {
   else if (how == "cons") { Constraint_System cs = read_cons(tk, dim); p = c ? (Polyhedron*) new C_Polyhedron(cs) : new NNC_Polyhedron(cs); }
   else if (how == "gens") { Generator_System gs = read_gens(tk, dim); p = c ? (Polyhedron*) new C_Polyhedron(gs) : new NNC_Polyhedron(gs); }
   else if (how == "cgs") { Congruence_System cs = read_cgs(tk, dim); p = c ? (Polyhedron*) new C_Polyhedron(cs) : new NNC_Polyhedron(cs); }
+  else if (how == "box") {   // conversion from a rational box: per dimension  lk ln ld uk un ud  (lk: -inf [ ( ; uk: +inf ] ))
+    Rational_Box b(dim);
+    for (unsigned i = 0; i < dim; ++i) {
+      std::string lk = tk.next(); mpz_class ln(tk.next()), ld(tk.next()); std::string uk = tk.next(); mpz_class un(tk.next()), ud(tk.next());
+      if (lk == "[") b.add_constraint(Coefficient(ld) * Variable(i) >= Coefficient(ln));
+      else if (lk == "(") b.add_constraint(Coefficient(ld) * Variable(i) > Coefficient(ln));
+      if (uk == "]") b.add_constraint(Coefficient(ud) * Variable(i) <= Coefficient(un));
+      else if (uk == ")") b.add_constraint(Coefficient(ud) * Variable(i) < Coefficient(un));
+    }
+    p = c ? (Polyhedron*) new C_Polyhedron(b) : new NNC_Polyhedron(b);
+  }
   else if (how == "from") {  // other topology
     const Polyhedron& y = *get(tk.nextl());
     if (c) p = (y.topology() == NECESSARILY_CLOSED) ? new C_Polyhedron(static_cast<const C_Polyhedron&>(y)) : new C_Polyhedron(static_cast<const NNC_Polyhedron&>(y));
